@@ -517,19 +517,23 @@ def job_post(P, env, outcome, cfg):
         P.claim("post_return", "no steps / all steps done: nothing is generated, called back or linked", not cbs and not gens and not links)
 
 
-def explore_job(cfg, assume_inv=True, target=None):
+def explore_job(cfg, assume_inv=True, target=None, env_cls=None, spec_classes=None, post=None, overrides=None, call_extra=None):
+    """all paths of the cut Job.evaluate.  The optional arguments (used by contracts/c20_files.py for the cut
+    WITH a file name) replace the environment class, the two loop contracts, the postcondition function, add
+    callee stubs to the globals of the cut function and add call arguments; the defaults are the C15 cut"""
     holder = {}
 
     def run(P):
         ns = P.fresh_int("nsteps")
-        env = JobEnv(P, cfg, ns)
-        specs = [StepsLoop(env), ResultsLoop(env)]
+        env = (env_cls or JobEnv)(P, cfg, ns)
+        specs = [c(env) for c in (spec_classes or (StepsLoop, ResultsLoop))]
         if "factory" not in holder:
-            holder["factory"], holder["info"] = lc.compile_cut(target or JB.Job.evaluate, specs)
+            holder["factory"], holder["info"] = lc.compile_cut(target or JB.Job.evaluate, specs, overrides=overrides)
         rt = lc.Runtime(P, specs, assume_inv=assume_inv)
         f = holder["factory"](rt)
-        out = lc.execute(lambda: _silently(lambda: f(env.job, verbose=cfg["verbose"], parallel=cfg["parallel"], **env.kwargs)))
-        job_post(P, env, out, cfg)
+        extra = call_extra(env) if call_extra else {}
+        out = lc.execute(lambda: _silently(lambda: f(env.job, verbose=cfg["verbose"], parallel=cfg["parallel"], **extra, **env.kwargs)))
+        (post or job_post)(P, env, out, cfg)
         return out
 
     return lc.explore(run), holder
